@@ -444,6 +444,8 @@ KNOWN_VARIANTS = {
     "Poll": ["Ready", "Pending"],
     "ControlFlow": ["Continue", "Break"],
     "Ordering": None,
+    "SocketAddr": ["V4", "V6"],
+    "IpAddr": ["V4", "V6"],
 }
 
 
@@ -485,7 +487,7 @@ class Guards:
         if ty:
             base = re.sub(r"^&(mut )?", "", ty)
             head = short(base).split("::")[-1]
-            m = re.match(r"(?:std|core)::(?:option::Option|result::Result|task::Poll|ops::ControlFlow)", base)
+            m = re.match(r"(?:std|core)::(?:option::Option|result::Result|task::Poll|ops::ControlFlow|net::SocketAddr|net::IpAddr)", base)
             if m:
                 vs = KNOWN_VARIANTS.get(head)
                 if vs:
